@@ -3,6 +3,7 @@ import Amgcl.Proofs.RelaxGS
 import Amgcl.Proofs.RelaxCheb
 import Amgcl.Proofs.RelaxIlu
 import Amgcl.Proofs.RelaxCheck
+import Amgcl.Proofs.RelaxIlu0
 import Amgcl.Model.RelaxIluk
 import Mathlib.Algebra.Field.Rat
 import Mathlib.Algebra.Order.Ring.Rat
@@ -395,6 +396,96 @@ theorem ilu0_sweep (ω : K) (F : IluFactors K) (A : CRS K) (f x t : Vec K) :
 
 end ilu
 
+/-! ## ILU(0): the factors reproduce `A` on the pattern of `A` -/
+section ilu0pattern
+variable {K : Type} [Field K] [DecidableEq K]
+
+/-- if `(I+L)(D⁻¹+U) = A` entrywise then the serial triangular solve inverts `A`: `A · solve(b) = b` -/
+theorem exact_factors_invert (A : CRS K) (F : IluFactors K)
+    (hex : ∀ i j, i < A.nrows → j < A.nrows → ∑ k ∈ range A.nrows, lowEntry F i k * upEntry F k j = A.get i j)
+    (hL : strictLowerb F.L = true) (hU : strictUpperb F.U = true) (hLwf : F.L.WF) (hUwf : F.U.WF)
+    (hLn : F.L.nrows = A.nrows) (hLc : F.L.ncols = A.nrows) (hUn : F.U.nrows = A.nrows) (hUc : F.U.ncols = A.nrows)
+    (hD : ∀ i, i < A.nrows → F.D.getD i 0 ≠ 0) (b : Vec K) (hb : b.size = A.nrows) (i : Nat) (hi : i < A.nrows) :
+    ∑ j ∈ range A.nrows, A.get i j * (iluSolve F b).getD j 0 = b.getD i 0 := by
+  have hinv := ilu_solve_serial_inverse F hL hU hLwf hUwf (by omega) (by omega) (by omega)
+    (fun k hk => hD k (by omega)) b (by omega) i (by omega)
+  rw [hLn] at hinv
+  rw [← hinv]
+  have : ∀ j ∈ range A.nrows, A.get i j * (iluSolve F b).getD j 0
+      = ∑ k ∈ range A.nrows, lowEntry F i k * (upEntry F k j * (iluSolve F b).getD j 0) := by
+    intro j hj
+    rw [← hex i j hi (mem_range.mp hj), sum_mul]
+    apply sum_congr rfl; intro k _; ring
+  rw [sum_congr rfl this, sum_comm]
+  apply sum_congr rfl; intro k _; rw [mul_sum]
+
+/-- a successful ILU(0) constructor returns strictly triangular, well-formed factors of the right size with non-zero
+stored pivots — all the hypotheses of `ilu_solve_serial_spec` / `ilu_solve_serial_inverse` -/
+theorem ilu0_factors_wf (ω : K) (A : CRS K) (hA : A.WF) (hsq : A.ncols = A.nrows) (hs : A.sortedb = true)
+    (F : IluFactors K) (hF : (ilu0 ω).setup A = .ok F) :
+    strictLowerb F.L = true ∧ strictUpperb F.U = true ∧ F.L.WF ∧ F.U.WF ∧ F.L.nrows = A.nrows ∧ F.L.ncols = A.nrows
+    ∧ F.U.nrows = A.nrows ∧ F.U.ncols = A.nrows ∧ F.D.size = A.nrows ∧ ∀ i, i < A.nrows → F.D.getD i 0 ≠ 0 :=
+  ilu0Factor_wf A hA hsq hs F hF
+
+/-- **`ilu0_on_pattern`.**  For every field, every size, every well-formed square matrix with sorted rows on which
+the constructor succeeds (diagonal stored, no zero pivot — the two `precondition`s of the code):
+`((I + L)(D⁻¹ + U))_ij = a_ij` for every stored position `(i, j)` of `A`.  (The zero-dropping compaction of the code
+is part of the model; a dropped entry is an exact zero and does not change the product.) -/
+theorem ilu0_on_pattern (ω : K) (A : CRS K) (hA : A.WF) (hsq : A.ncols = A.nrows) (hs : A.sortedb = true)
+    (F : IluFactors K) (hF : (ilu0 ω).setup A = .ok F) (i : Nat) (hi : i < A.nrows) (cv : Nat × K)
+    (hcv : cv ∈ A.row i) :
+    ∑ k ∈ range A.nrows, lowEntry F i k * upEntry F k cv.1 = A.get i cv.1 :=
+  ilu0_on_pattern_aux A hA hsq hs F hF i hi cv hcv
+
+/-- the factors stay inside the pattern of `A` -/
+theorem ilu0_factors_in_pattern (ω : K) (A : CRS K) (hA : A.WF) (hsq : A.ncols = A.nrows) (hs : A.sortedb = true)
+    (F : IluFactors K) (hF : (ilu0 ω).setup A = .ok F) (i : Nat) (hi : i < A.nrows) :
+    (∀ cv ∈ F.L.row i, patOf A i cv.1 = true) ∧ (∀ cv ∈ F.U.row i, patOf A i cv.1 = true) := by
+  obtain ⟨inv, _, _⟩ := ilu0Factor_inv A hA hsq hs F hF
+  exact ⟨fun cv hcv => (patOf_iff A i cv.1).mpr (inv.subL i hi cv hcv),
+         fun cv hcv => (patOf_iff A i cv.1).mpr (inv.subU i hi cv hcv)⟩
+
+/-- `ilu0_exact_tridiagonal`, in general form: when the pattern of `A` is closed under fill-in (`noFillb`: tridiagonal
+matrices, arrow matrices, …) ILU(0) is the exact factorisation `(I + L)(D⁻¹ + U) = A` … -/
+theorem ilu0_exact_of_no_fill (ω : K) (A : CRS K) (hA : A.WF) (hsq : A.ncols = A.nrows) (hs : A.sortedb = true)
+    (hnf : noFillb A = true) (F : IluFactors K) (hF : (ilu0 ω).setup A = .ok F) (i j : Nat) (hi : i < A.nrows)
+    (hj : j < A.nrows) :
+    ∑ k ∈ range A.nrows, lowEntry F i k * upEntry F k j = A.get i j :=
+  ilu0_exact_aux A hA hsq hs hnf F hF i j hi hj
+
+/-- … and `apply` is the exact inverse: `A · apply(f) = f` -/
+theorem ilu0_exact_inverse (ω : K) (A : CRS K) (hA : A.WF) (hsq : A.ncols = A.nrows) (hs : A.sortedb = true)
+    (hnf : noFillb A = true) (F : IluFactors K) (hF : (ilu0 ω).setup A = .ok F) (f : Vec K)
+    (hf : f.size = A.nrows) (i : Nat) (hi : i < A.nrows) :
+    ∑ j ∈ range A.nrows, A.get i j * ((ilu0 ω).apply F A f).getD j 0 = f.getD i 0 := by
+  obtain ⟨h1, h2, h3, h4, h5, h6, h7, h8, _, h10⟩ := ilu0_factors_wf ω A hA hsq hs F hF
+  have hcopy : vcopy f = f := by
+    apply Vec.ext_getD (0 : K) (by simp [vcopy])
+    intro k hk
+    have hk' : k < f.size := by simpa [vcopy] using hk
+    simp [vcopy, getD_ofFn_lt _ _ _ hk']
+  show ∑ j ∈ range A.nrows, A.get i j * (iluSolve F (vcopy f)).getD j 0 = f.getD i 0
+  rw [hcopy]
+  exact exact_factors_invert A F (fun i j hi hj => ilu0_exact_of_no_fill ω A hA hsq hs hnf F hF i j hi hj)
+    h1 h2 h3 h4 h5 h6 h7 h8 h10 f hf i hi
+
+/-- ILUP (`ilup.hpp`): ILU(0) of `A` padded with explicit zeros to the pattern of `A^(k+1)`; on every position of that
+pattern the factors reproduce `A` -/
+theorem ilup_on_pattern (k : Nat) (hk : k ≠ 0) (A : CRS K) (hsq : A.ncols = A.nrows)
+    (F : IluFactors K) (hF : ilupFactor k A = .ok F) (i j : Nat) (hi : i < A.nrows) (hj : j < A.nrows)
+    (hp : patPower A k i j = true) :
+    ∑ k' ∈ range A.nrows, lowEntry F i k' * upEntry F k' j = A.get i j := by
+  unfold ilupFactor at hF
+  rw [if_neg hk] at hF
+  have hmem : (j, A.get i j) ∈ (padPattern (patPower A k) A).row i :=
+    (padPattern_mem _ A i hi _).mpr ⟨hj, hp, rfl⟩
+  have := ilu0_on_pattern_aux (padPattern (patPower A k) A) (padPattern_wf _ A hsq)
+    (by rw [padPattern_nrows]; exact hsq) (padPattern_sorted _ A) F hF i (by rw [padPattern_nrows]; exact hi) _ hmem
+  rw [padPattern_nrows, padPattern_get _ A i j hi hj hp] at this
+  exact this
+
+end ilu0pattern
+
 /-! ## ILU(k) and ILUP as written
 
 `Model/RelaxIluk.lean` mirrors `iluk.hpp` (single pass, contributions of level `> k` to a position without a slot are
@@ -442,18 +533,8 @@ theorem lu_exact_inverse (A : CRS K) (F : IluFactors K) (h : luExactb A F = true
     (hL : strictLowerb F.L = true) (hU : strictUpperb F.U = true) (hLwf : F.L.WF) (hUwf : F.U.WF)
     (hLn : F.L.nrows = A.nrows) (hLc : F.L.ncols = A.nrows) (hUn : F.U.nrows = A.nrows) (hUc : F.U.ncols = A.nrows)
     (hD : ∀ i, i < A.nrows → F.D.getD i 0 ≠ 0) (b : Vec K) (hb : b.size = A.nrows) (i : Nat) (hi : i < A.nrows) :
-    ∑ j ∈ range A.nrows, A.get i j * (iluSolve F b).getD j 0 = b.getD i 0 := by
-  have hinv := ilu_solve_serial_inverse F hL hU hLwf hUwf (by omega) (by omega) (by omega)
-    (fun k hk => hD k (by omega)) b (by omega) i (by omega)
-  rw [hLn] at hinv
-  rw [← hinv]
-  have : ∀ j ∈ range A.nrows, A.get i j * (iluSolve F b).getD j 0
-      = ∑ k ∈ range A.nrows, lowEntry F i k * (upEntry F k j * (iluSolve F b).getD j 0) := by
-    intro j hj
-    rw [← luExact_sound A F h i j hi (mem_range.mp hj), sum_mul]
-    apply sum_congr rfl; intro k _; ring
-  rw [sum_congr rfl this, sum_comm]
-  apply sum_congr rfl; intro k _; rw [mul_sum]
+    ∑ j ∈ range A.nrows, A.get i j * (iluSolve F b).getD j 0 = b.getD i 0 :=
+  exact_factors_invert A F (fun i j hi hj => luExact_sound A F h i j hi hj) hL hU hLwf hUwf hLn hLc hUn hUc hD b hb i hi
 
 end vgrade
 
@@ -524,6 +605,13 @@ example := ilu_solve_serial_inverse exF (by decide) (by decide) (by decide) (by 
 example := lu_exact_inverse exA exF (by decide +kernel) (by decide) (by decide) (by decide) (by decide) rfl rfl rfl rfl
   exF_D #[1, 2, 3] rfl 0 (by decide)
 example := ilu0_fixed_point (1 : ℚ) exA exF (by exact exA_ilu0) #[3, 2, 2] #[1, 1, 1] #[] rfl rfl exA_solves
+example := ilu0_on_pattern (1 : ℚ) exA (by decide) rfl (by decide) exF (by exact exA_ilu0) 1 (by decide) (2, -1)
+  (by decide +kernel)
+example : noFillb exA = true := by decide
+example := ilu0_exact_inverse (1 : ℚ) exA (by decide) rfl (by decide) (by decide) exF (by exact exA_ilu0) #[1, 2, 3] rfl
+  0 (by decide)
+theorem exA_ilup : ilupFactor 1 exA = .ok exF := by decide +kernel
+example := ilup_on_pattern 1 (by decide) exA rfl exF exA_ilup 0 2 (by decide) (by decide) (by decide +kernel)
 -- ILU(k) as written violates the on-pattern identity: the minimal input of finding C06-iluk-dropped-contributions
 /-- rows `{0:4, 1:1} {1:4, 4:1} {2:4, 4:1} {0:1, 2:1, 3:4} {4:4}` -/
 def exK : CRS ℚ := ⟨5, #[[(0, 4), (1, 1)], [(1, 4), (4, 1)], [(2, 4), (4, 1)], [(0, 1), (2, 1), (3, 4)], [(4, 4)]]⟩
